@@ -229,7 +229,45 @@ def full(shape, fill, dtype=None):
     return out
 
 
+class AbstractArr:
+    """array whose leading dimension is symbolic: concrete writes are remembered, every other read is answered by the
+    contract-supplied ``reader`` (fresh values satisfying the invariant / arbitrary values); writes are recorded."""
+
+    def __init__(self, shape, fill):
+        self.shape, self.fill = shape, fill
+        self.writes = []
+        self.reader = None
+
+    def _concrete(self, i):
+        if isinstance(i, Sym) and i.is_const():
+            i = int(i.const())
+        return i if isinstance(i, (int, _np.integer)) and not isinstance(i, bool) else None
+
+    def __getitem__(self, i):
+        c = self._concrete(i)
+        if c is not None:
+            for j, val in reversed(self.writes):
+                if self._concrete(j) == c:
+                    return val
+                if self._concrete(j) is None:
+                    break
+        if self.reader is None:
+            raise Unsupported("read from an abstract array without a contract")
+        return self.reader(self, i)
+
+    def __setitem__(self, i, val):
+        self.writes.append((i, val))
+
+
+ABSTRACT_ARRAY_HOOK = [None]
+
+
 def zeros(shape, dtype=None, **k):
+    if isinstance(shape, tuple) and shape and isinstance(shape[0], Sym) and not shape[0].is_const():
+        arr = AbstractArr(shape, Fraction(0))
+        if ABSTRACT_ARRAY_HOOK[0]:
+            ABSTRACT_ARRAY_HOOK[0](arr)
+        return arr
     if dtype in (int, _np.int_, bool, _np.bool_):
         return _np.zeros(_shape(shape), dtype=dtype)
     return full(shape, Fraction(0))
@@ -308,8 +346,30 @@ def copy(x):
     return array(x)
 
 
+class AbstractSeq:
+    """a sequence of symbolic length: only its end points are known; iterating it requires a loop contract (T4)."""
+
+    def __init__(self, first, last, what="geomspace"):
+        self.first, self.last, self.what = first, last, what
+
+    def __getitem__(self, i):
+        if isinstance(i, slice):
+            return AbstractSeq(self.first if i.start in (None, 0) else None, self.last if i.stop is None else None, self.what)
+        if i == 0 and self.first is not None:
+            return self.first
+        if i == -1 and self.last is not None:
+            return self.last
+        raise Unsupported(f"element {i} of an abstract {self.what} sequence")
+
+    def __iter__(self):
+        raise Unsupported(f"iteration over an abstract {self.what} sequence without a loop contract")
+
+
 def geomspace(a, b, num=50, **k):
     _used("np.geomspace(a,b,k)[i] = a (b/a)^(i/(k-1)) with exact endpoints")
+    if isinstance(num, Sym) and not num.is_const():
+        _used("np.geomspace with symbolic length: abstract sequence with first = a, last = b")
+        return AbstractSeq(norm(a), norm(b))
     num = int(num)
     a, b = norm(a), norm(b)
     out = _np.empty(num, dtype=object)
@@ -462,6 +522,9 @@ class _Linalg:
         h = _HOOKS.get("linalg.inv")
         if h:
             return h(m)
+        if m.ndim == 2 and m.shape[0] == m.shape[1] and m.shape[0] <= 4:
+            _used("np.linalg.inv n<=4 = adjugate / det (cofactor expansion)")
+            return _adj_inv(m)
         raise Unsupported(f"np.linalg.inv of symbolic {m.shape} matrix (needs an assumed contract)")
 
     @staticmethod
@@ -485,6 +548,40 @@ class _Linalg:
 
 linalg = _Linalg()
 _HOOKS: dict = {}
+
+
+def _minor_det(m, rows, cols, memo):
+    key = (rows, cols)
+    if key in memo:
+        return memo[key]
+    if len(rows) == 1:
+        r = m[rows[0], cols[0]]
+    else:
+        r = Fraction(0)
+        i = rows[0]
+        for k, j in enumerate(cols):
+            a = m[i, j]
+            if isinstance(a, _EXACT) and a == 0:
+                continue
+            sub = _minor_det(m, rows[1:], cols[:k] + cols[k + 1:], memo)
+            r = r + a * sub if k % 2 == 0 else r - a * sub
+    memo[key] = r
+    return r
+
+
+def _adj_inv(m):
+    n = m.shape[0]
+    memo = {}
+    idx = tuple(range(n))
+    det = _minor_det(m, idx, idx, memo)
+    out = _np.empty((n, n), dtype=object)
+    for i in range(n):
+        for j in range(n):
+            rows = tuple(r for r in idx if r != j)
+            cols = tuple(c for c in idx if c != i)
+            cof = _minor_det(m, rows, cols, memo) if n > 1 else Fraction(1)
+            out[i, j] = _vcdiv(cof if (i + j) % 2 == 0 else -cof, det)
+    return out
 
 
 def _exact_inv(m):
